@@ -63,11 +63,12 @@ struct OffsetResult { int error = 0; Paths closed; TreeNode tree; std::vector<ZL
 struct RectArgs { int64_t l, t, r, b; Paths paths; bool lines = false; };
 // C11 probes of the argument-validation paths
 enum ProbeKind { P_ClipperD_Subject, P_ClipperD_Clip, P_ClipperD_Open, P_BooleanOpD, P_UnionD, P_InflatePathsD, P_RectClipD,
-                 P_RectClipLinesD, P_TrimCollinearD, P_ScalePath, P_MakePath, P_MakePathD, P_BooleanOpTreeD, P_NKINDS };
+                 P_RectClipLinesD, P_TrimCollinearD, P_ScalePath, P_MakePath, P_MakePathD, P_BooleanOpTreeD, P_ScalePaths2, P_NKINDS };
 struct ProbeArgs {
   int kind = 0, precision = 2;
   PathsD paths;            // non-empty input paths
   double scale = 1;        // for P_ScalePath
+  double scaleX = 1, scaleY = 1;   // for P_ScalePaths2 (the two-scale overload of ScalePaths)
   std::vector<int64_t> list;  // for P_MakePath / P_MakePathD
   double delta = 1;
   double l = -1e9, t = -1e9, r = 1e9, b = 1e9;  // rectangle
